@@ -38,6 +38,42 @@ def mech(prog, default, failure="failed"):
     return m.replace("C07/", "C14/", 1) if m is not default else default
 
 
+class EqAll:
+    def __eq__(self, other):
+        return True
+
+    def __hash__(self):
+        return 1
+
+    def __repr__(self):
+        return "EqAll()"
+
+
+class HashOnlyEq(str):
+    """equal to the str it was built from, but hashes differently: tuple membership finds it, set membership does not"""
+
+    def __hash__(self):
+        return 12345
+
+    __eq__ = str.__eq__
+
+
+_WILD = []
+
+
+def wild_values():
+    if not _WILD:
+        from decimal import Decimal
+        from fractions import Fraction
+
+        from pyabv.gen.inputs import exotic_splitter_values
+
+        _WILD.extend(exotic_splitter_values() + [12.0, -3.0, 1e16, 0.0, -0.0, 2.0, 1.0, True, None, float("nan"), float("inf"), {1, 2}, bytearray(b"x"),
+                                                 Decimal("2"), Decimal("2.50"), Fraction(5, 2), EqAll(), HashOnlyEq("a"), HashOnlyEq("US"), "a", 1, 2, 3,
+                                                 [], {}, (), "", "US"])
+    return _WILD
+
+
 def check_program(ctx, im, text, gp, ninputs, layer, prog=None):
     from pyabv.ref.parse import If
 
@@ -57,6 +93,12 @@ def check_program(ctx, im, text, gp, ninputs, layer, prog=None):
     ev = c[1]
     envs, _ = choose_inputs(prog, gp, ctx.rnd, ninputs, pool_factor=3)
     envs = [e for e in envs if selection(prog, e) is not None]
+    # "wild" records: any Python value in any field (unhashable containers, integral floats, Decimal, objects with their own
+    # __eq__ / __hash__ / __str__).  No reference semantics are needed here: the two artefacts only have to agree
+    fields = sorted(gp.kinds)
+    for _ in range(max(2, ninputs // 4)):
+        if fields:
+            envs.append({f: ctx.rnd.choice(wild_values()) for f in fields})
     for expose in (False, True):
         layout = "exposed" if expose else "nested"
         ctx.evaluated()
@@ -158,7 +200,10 @@ def run(ctx):
             continue
         check_program(ctx, im, gp.text, gp, 15, "random", prog=prog)
         if i < 1:
-            ctx.sample(dict(text=gp.text, generated_nested=im.generate_text(gp.text, False)[:1200]))
+            try:
+                ctx.sample(dict(text=gp.text, generated_nested=im.generate_text(gp.text, False)[:1200]))
+            except Exception:  # noqa: BLE001  (already reported by check_program as generate-code-raised)
+                pass
 
 
 def replay(ctx, kind, w):
